@@ -419,9 +419,11 @@ def validate_trace(module, records, constants=None, timeout=1800, chunk=None):
         shutil.rmtree(tmp, ignore_errors=True)
 
 
-def validate_trace_all(module, records, constants=None, timeout=1800, max_rejects=10):
+def validate_trace_all(module, records, constants=None, timeout=1800, max_rejects=10, session_start=None):
     """Like validate_trace but continues after a rejection so that the rest of the
-    trace is still checked.  Returns (merged TlcResult, [(index0, clause), ...])."""
+    trace is still checked.  Returns (merged TlcResult, [(index0, clause), ...]).
+    session_start(rec) -> bool: when given, validation resumes at the next record that
+    starts a session (the spec state of a rejected session cannot be continued)."""
     res = TlcResult()
     rejects = []
     offset = 0
@@ -435,8 +437,12 @@ def validate_trace_all(module, records, constants=None, timeout=1800, max_reject
         rejects.append((offset + idx, clause))
         if len(rejects) >= max_rejects or idx < 0:
             break
-        recs = recs[idx + 1:]
-        offset += idx + 1
+        skip = idx + 1
+        if session_start is not None:
+            while skip < len(recs) and not session_start(recs[skip]):
+                skip += 1
+        recs = recs[skip:]
+        offset += skip
     return res, rejects
 
 
